@@ -14,6 +14,7 @@ type POp struct {
 	Data  Bytes         `json:"data,omitempty"`
 	Nil   bool          `json:"nil,omitempty"`   // reset: Reset(nil)
 	Cap   int           `json:"cap,omitempty"`   // reset: spare capacity of the slice handed over
+	Fill  byte          `json:"fill,omitempty"`  // reset: content of the spare capacity (not part of the data)
 	Flags int           `json:"flags,omitempty"` // parse
 	Off   int64         `json:"off,omitempty"`   // readat/byteat: absolute offset
 	Len   int           `json:"len,omitempty"`   // readat: len(p)
@@ -92,6 +93,8 @@ type parserExec struct {
 	c11Blocks, c11MLM, c11Mixed, c11AfterRebuild int
 	c12Matches, c12AfterRebuild, c12AfterCut     int
 	runBlocks, runBlocksAfterShrink              int
+
+	capFillXor byte // XORed into the fill byte of Reset slices' spare capacity
 
 	keepBlocks bool
 	blocks     []blockRec
@@ -354,6 +357,14 @@ func (x *parserExec) doReset(op POp) {
 	if !op.Nil {
 		data = make([]byte, len(op.Data), len(op.Data)+op.Cap)
 		copy(data, op.Data)
+		// The spare capacity is not part of the data handed over; what it
+		// holds must not matter (capFillXor differs between twins).
+		if f := op.Fill ^ x.capFillXor; f != 0 {
+			spare := data[len(data):cap(data)]
+			for i := range spare {
+				spare[i] = f
+			}
+		}
 	}
 	var err error
 	if x.call("Reset", []string{"C15", "C16"}, func() { err = x.p.Reset(data) }) {
